@@ -1,6 +1,7 @@
 package props
 
 import (
+	"bytes"
 	"encoding/binary"
 	"errors"
 	"fmt"
@@ -72,6 +73,13 @@ func c10Request(c *fw.Case, ts *pdus.Tables, t *pdus.Type) {
 		return
 	}
 	c.Evals(1)
+	// generating the response must leave the request as it was
+	if after := pdus.Extract(t.Lib(), p); len(pdus.Diff(t.Lib(), v, after)) > 0 || after.Cmd != v.Cmd {
+		c.Failf("request-changed-by-generating-response/"+t.Key(), "%s: after GenEmptyResponse() the request itself differs: %v (command %#x -> %#x)", ctx(), pdus.Diff(t.Lib(), v, after), v.Cmd, after.Cmd)
+	}
+	if got := p.GetCommand().ToUint32(); got != t.Cmd {
+		c.Failf("request-command-after-response/"+t.Key(), "%s: after GenEmptyResponse() the request reports command %#x, expected %#x", ctx(), got, t.Cmd)
+	}
 	if t.IsResponse() || t.Resp == "" {
 		if r != nil && !reflect.ValueOf(r).IsNil() {
 			c.Failf("response-generates-response/"+t.Key(), "%s is a response but GenEmptyResponse() returned a %s", ctx(), goName(r))
@@ -124,6 +132,9 @@ func c10Request(c *fw.Case, ts *pdus.Tables, t *pdus.Type) {
 		c.Failf("set-sequence-getter/"+t.Key(), "%s: SetSequenceID(%d) then GetSequenceID()=%d", ctx(), x, got)
 	}
 	if err == nil {
+		if len(b) >= 8 && binary.BigEndian.Uint32(b[4:8]) != t.Cmd {
+			c.Failf("request-header-command-after-response/"+t.Key(), "%s: encoded after GenEmptyResponse(), the request's header carries command %#x, expected %#x", ctx(), binary.BigEndian.Uint32(b[4:8]), t.Cmd)
+		}
 		off := seqOffset(t)
 		if len(b) < off+4 || binary.BigEndian.Uint32(b[off:]) != x {
 			c.Failf("set-sequence-header/"+t.Key(), "%s: SetSequenceID(%d) is not at header offset %d of the image %s", ctx(), x, off, hx(b))
@@ -316,7 +327,15 @@ func init() {
 						{"smpp34.NewDeliverySMRespBytes", smpp34.NewDeliverySMRespBytes(seq), "smpp34", 12},
 						{"smpp34.NewUnBindBytes", smpp34.NewUnBindBytes(seq), "smpp34", 12},
 					}
+					// packets handed out earlier stay what they were
+					for _, h := range heldPackets {
+						if !bytes.Equal(h.live, h.snap) {
+							c.Failf("helper-image-changed-later/"+h.name, "a packet returned by %s earlier now reads %s, was %s", h.name, hx(h.live), hx(h.snap))
+						}
+					}
+					heldPackets = heldPackets[:0]
 					for _, x := range by {
+						heldPackets = append(heldPackets, heldPacket{x.name, x.b, append([]byte(nil), x.b...)})
 						c.Evals(1)
 						if len(x.b) < x.off+4 || int(binary.BigEndian.Uint32(x.b)) != len(x.b) || binary.BigEndian.Uint32(x.b[x.off:]) != seq {
 							c.Failf("helper-image/"+x.name, "%s(%d) = %s: length word or sequence number wrong", x.name, seq, hx(x.b))
@@ -337,6 +356,14 @@ func init() {
 		},
 	})
 }
+
+type heldPacket struct {
+	name       string
+	live, snap []byte
+}
+
+// heldPackets: the helper packets of the previous case (one goroutine per worker process).
+var heldPackets []heldPacket
 
 func nonNulASCII(r *fw.Rng, n int) []byte {
 	b := make([]byte, n)
